@@ -1068,6 +1068,7 @@ rfbScreenInfoPtr rfbGetScreen(int* argc,char** argv,
  * the caller.
  */
 
+void rfbScaledScreensNewFramebuffer(rfbScreenInfoPtr screen, int oldWidth, int oldHeight);
 void rfbNewFramebuffer(rfbScreenInfoPtr screen, char *framebuffer,
                        int width, int height,
                        int bitsPerSample, int samplesPerPixel,
@@ -1077,6 +1078,7 @@ void rfbNewFramebuffer(rfbScreenInfoPtr screen, char *framebuffer,
   rfbBool format_changed = FALSE;
   rfbClientIteratorPtr iterator;
   rfbClientPtr cl;
+  int old_width = screen->width, old_height = screen->height;
 
   /* Lock out client reads. */
   iterator = rfbGetClientIterator(screen);
@@ -1108,6 +1110,9 @@ void rfbNewFramebuffer(rfbScreenInfoPtr screen, char *framebuffer,
   }
 
   screen->frameBuffer = framebuffer;
+
+  /* Scaled versions were made from the old framebuffer (size, format, contents) */
+  rfbScaledScreensNewFramebuffer(screen, old_width, old_height);
 
   /* Adjust pointer position if necessary */
 
